@@ -15,6 +15,8 @@ pub open spec fn sig_at(d: Seq<u8>, p: int, sig: u32) -> bool { inb(d, p, 4) && 
 //@include spec/appnote_headers.rs
 //@include spec/extra_walk.rs
 //@include spec/parsed.rs
+//@include spec/zfd_views.rs
+//@include spec/text_roundtrip.rs
 
 //@impl src/types.rs | impl System
 impl System {
